@@ -3,14 +3,16 @@ from props import only  # noqa: F401
 _ERR = r"(in:(\d+) ex:\2|ex:(\d+) in:\3|ex:(\d+) ex:\4|un ex:0|ex:4294967295 un|ex:4294967295 \S+|\S+ ex:0)"
 
 CFG = {
-    "gen_profiles": ["C16"],
-    "cases": {"quick": 500, "thorough": 6000},
+    "gen_profiles": ["C16", "C16T"],
+    "cases": {"quick": 800, "thorough": 9000},
     # totality is about results and panics, not about representation
     "compare": "set",
     "rule": ("cases = corpus + seeded cases (harness gen --profile C16): a value from a short history (empty, arrays, bitsets, full chunk, "
              "u32::MAX chunk), then 6-14 entries of the property's argument table (empty / inverted / equal-excluded / unbounded / "
              "exclusive bounds, counts >> len, indices past the end, 0, u32::MAX) through every 32-bit method that has an op, plus Debug "
-             "formatting; executed in both build profiles (overflow checks on and off); non-trivial = some dump shows a bitset chunk "
+             "formatting (profile C16); profile C16T: the same argument table (u64 bounds, 0, u32::MAX, u64::MAX, targets before the front / beyond "
+             "the back / in absent partitions / in the partition the other end already opened) through the RoaringTreemap methods and through "
+             "advance_to / advance_back_to / nth / nth_back / next / next_back / size_hint / fold of all four iterator types; executed in both build profiles (overflow checks on and off); non-trivial = some dump shows a bitset chunk "
              "or >= 2 chunks; distinct by SHA-1 of the ops"),
     "targets": {
         "insert_range: empty/inverted -> 0": r"^insert_range b0 %s => 0$" % _ERR,
